@@ -1,14 +1,22 @@
 (* C44 — Tree diffs agree with git.  Only statements here; proofs are in Proofs*.v.
-   Model.v: gix_diff::tree::diff with the default Recorder.  Spec.v: [key_cmp] = git's
-   base_name_compare, [tdiff_level] = git diff-tree -r -t --no-renames as a recursive function,
-   [flatten] = all (path, mode, id) of a tree.  [strip] drops the rename-tracking relation of a
-   recorded change, [render] joins path components with "/".
-   [wfl db k L]: every tree reachable from the entries L is in the object database, decodes
-   completely, lies at depth <= k, and no entry name contains '/'.
-   [w db k L R]: number of merge events plus number of tree pairs of the two trees. *)
+   Model.v: gix_diff::tree::diff with the default Recorder (after fix ffe749990).
+   Spec.v: [key_cmp] = git's base_name_compare; [merge] = the textbook merge walk;
+   [tdiff_level] = git diff-tree -r -t --no-renames as a recursive function; [flatten] = all
+   (path, mode, id) of a tree, tree entries included, paths as component lists.
+   [strip] drops the rename-tracking relation of a recorded change, [render] joins path components with "/".
+   [sdb_of db] = the trees of the object database that decode completely.
+   [wfl db k L]: every tree reachable from the entries L is in [db], decodes completely, lies at
+     depth <= k, and no entry name contains '/'.
+   [wfs sdb k L]: the same for valid git trees: in addition every list of entries is strictly
+     increasing in git's order and tree entries have mode 040000.
+   [w db k L R]: number of merge events plus number of tree pairs of the two trees (the fuel).
+   [diff_spec FA FB c]: c is a member of the difference of two flattened trees keyed by
+     (path, is-a-tree): deletion = key only in FA, addition = key only in FB, modification = key
+     in both with another mode or id.
+   [applied D FA y]: y remains of FA after removing what D deletes/modifies, or is created by D. *)
 From Coq Require Import List Permutation.
 From GixV.Base Require Import Bytes BytesFacts Outcome.
-From GixV.C44 Require Import Model Spec Proofs ProofsOrder ProofsWalk ProofsTop.
+From GixV.C44 Require Import Model Spec Proofs ProofsOrder ProofsWalk ProofsSpec ProofsFlat ProofsApply ProofsParse ProofsTop.
 Import ListNotations.
 
 (* Recorder: popping after pushing a name without '/' restores the path *)
@@ -20,15 +28,60 @@ Theorem compare_is_git_order : forall a b,
   no_slash (ename a) -> no_slash (ename b) -> compare a b = key_cmp a b.
 Proof. exact L_compare_key. Qed.
 
+(* one level: on strictly sorted lists the merge walk yields exactly the entries whose key occurs
+   only left, only right, or on both sides *)
+Theorem level_events_are_key_difference : forall L R, ssorted L -> ssorted R ->
+  forall ev, In ev (merge key_cmp L R) <-> ev_spec L R ev.
+Proof. exact L_merge_char. Qed.
+
 (* diff() on two decodable root trees terminates within w+1 loop iterations, does not fail or
    panic, and records - up to the order, which is breadth-first instead of depth-first - exactly
-   the changes of git's recursive tree diff *)
+   the changes of git's recursive tree diff.  No sortedness is needed for this. *)
 Theorem diff_is_git_recursive_diff : forall db lhs rhs k L R fuel,
   parse_tree lhs = (L, false) -> parse_tree rhs = (R, false) ->
   wfl db k L -> wfl db k R -> fuel > w db k L R ->
   exists cs, diff fuel db lhs rhs = Ok cs /\
              Permutation (map strip cs) (map (gmap render) (tdiff_level k (sdb_of db) [] L R)).
 Proof. exact L_diff_is_tdiff. Qed.
+
+(* git's recursive diff of valid trees is the difference of the flattened maps *)
+Theorem recursive_diff_is_map_difference : forall sdb k p L R, wfs sdb k L -> wfs sdb k R ->
+  forall c, In c (tdiff_level k sdb p L R) <-> diff_spec (flatten k sdb p L) (flatten k sdb p R) c.
+Proof. exact L_tdiff_char. Qed.
+
+(* both together: the changes diff() records for valid trees are exactly the members of the
+   difference of the two flattened (path, mode, id) maps *)
+Theorem diff_is_map_difference : forall db lhs rhs k L R fuel,
+  parse_tree lhs = (L, false) -> parse_tree rhs = (R, false) ->
+  wfs (sdb_of db) k L -> wfs (sdb_of db) k R -> fuel > w db k L R ->
+  exists cs, diff fuel db lhs rhs = Ok cs /\
+    forall c, In c (map strip cs) <->
+      exists sc, c = gmap render sc /\
+        diff_spec (flatten k (sdb_of db) [] L) (flatten k (sdb_of db) [] R) sc.
+Proof. exact L_diff_is_map_difference. Qed.
+
+(* a flattened valid tree has at most one entry per (path, kind) *)
+Theorem flatten_keys_unique : forall sdb k p L, wfs sdb k L -> key_unique (flatten k sdb p L).
+Proof. exact flat_unique. Qed.
+
+(* applying any list of changes that is the difference of two maps to the first map gives the second *)
+Theorem apply_difference : forall FA FB D, key_unique FA -> key_unique FB ->
+  (forall c, In c D <-> diff_spec FA FB c) ->
+  forall y, applied D FA y <-> In y FB.
+Proof. exact L_apply_set. Qed.
+
+(* apply (diff a b) a = b for what diff() records *)
+Theorem apply_diff : forall db lhs rhs k L R fuel,
+  parse_tree lhs = (L, false) -> parse_tree rhs = (R, false) ->
+  wfs (sdb_of db) k L -> wfs (sdb_of db) k R -> fuel > w db k L R ->
+  exists cs D, diff fuel db lhs rhs = Ok cs /\
+    Permutation (map strip cs) (map (gmap render) D) /\
+    forall y, applied D (flatten k (sdb_of db) [] L) y <-> In y (flatten k (sdb_of db) [] R).
+Proof. exact L_apply_diff. Qed.
+
+(* the tree decoder only lets mode 040000 be a tree: this hypothesis of [wfs] always holds for decoded trees *)
+Theorem decoded_tree_modes_canonical : forall data, Forall mode_ok (fst (parse_tree data)).
+Proof. exact L_parsed_modes. Qed.
 
 (* non-vacuity: file "a" replaced by a directory, mode change of "a.b" which sorts between "a" and "a/" *)
 Example diff_example :
@@ -40,3 +93,8 @@ Example diff_example :
           Addition 16384 id3 (bs "a") (Some (Parent 1));
           Addition 33188 id2 (bs "a/x") (Some (ChildOf 1))].
 Proof. exact L_example. Qed.
+Example valid_trees_example :
+  exists L R, parse_tree ex_lhs = (L, false) /\ parse_tree ex_rhs = (R, false) /\
+    wfs (sdb_of ex_db) 1 L /\ wfs (sdb_of ex_db) 1 R /\
+    length (flatten 1 (sdb_of ex_db) [] L) = 2%nat /\ length (flatten 1 (sdb_of ex_db) [] R) = 3%nat.
+Proof. exact L_example_valid. Qed.
